@@ -25,6 +25,13 @@ def dense_family():
     out.append(("dense.h", header42.header_text("dense.h") + "\n#ifndef dense_h\n#define dense_h\nint f();\n#endif\nint x;\n"))
     out.append(("dense.c", h + "int\tmain(void)\n{\n\tchar\tc;\n\n\tc = 'a\n\treturn (0);\n}\n"))
     out.append(("dense.c", h + "int\tmain(void)\n{\n\treturn (1.5e+ + 0x1e+5 + 09 + 0b2 + 1..2);\n}\n"))
+    # characters that some line-splitting routines take for line breaks (form feed, vertical tab, FS/GS/RS, NEL, LS, PS)
+    # inside comments and strings, before an over-long line close to the end of the file
+    for ch in ("\f", "\v", "\x1c", "\x1d", "\x1e", "\x85", "\u2028", "\u2029", "\r"):
+        long_line = "** " + "x" * 90
+        out.append(("dense.c", h + "int\tmain(void)\n{\n\treturn (0);\n}\n/*\n** a" + ch + "b" + ch + ch + "c\n" + long_line + "\n*/\n"))
+        out.append(("dense.h", header42.header_text("dense.h") + "\n/* p" + ch + "q */\n#ifndef DENSE_H\n# define DENSE_H\n\n# define S \"a" + ch
+                    + "b\"\n// " + "y" * 90 + "\n\n#endif\n"))
     return out
 
 
